@@ -100,39 +100,51 @@ file (if any) is good, every history of `processEntry` calls and every per-attem
 script: the final path holds only bytes with the manifest's digest and size.  (Histories are
 prefix-closed, so this covers every intermediate state after whole calls; `C25_final_correct_within`
 covers the states inside a call.) -/
-theorem C25_final_correct (f : Facts) (content : Bytes) (maxA : Nat) (r0 : Rep) (c0 : Counters)
+theorem C25_final_correct (f : Facts) (hpo : f.promoteAfterVerdict = true) (content : Bytes) (maxA : Nat) (r0 : Rep) (c0 : Counters)
     (hist : List (List (List Outcome))) (h0 : GoodFinal H content r0) :
     ∀ b, (runHist H f content maxA (r0, c0) hist).1.final = some b →
       H b = H content ∧ b.length = content.length := by
-  have := runHist_inv H (stepOK_any H f content) maxA hist (r0, c0)
+  have := runHist_inv H (stepOK_any H f hpo content) maxA hist (r0, c0)
     (fun p _ => scriptIn_true p) ⟨h0, fun _ => trivial⟩
   exact this.1
 
-theorem C25_final_correct_within (f : Facts) (content : Bytes) (maxA : Nat) (s : PState)
+theorem C25_final_correct_within (f : Facts) (hpo : f.promoteAfterVerdict = true) (content : Bytes) (maxA : Nat) (s : PState)
     (script : List (List Outcome)) (h0 : GoodFinal H content s.rep) :
     ∀ b, (runProc H f content maxA s script).rep.final = some b →
       H b = H content ∧ b.length = content.length := by
-  have := runProc_inv H (stepOK_any H f content) maxA script s (scriptIn_true _) ⟨h0, fun _ => trivial⟩
+  have := runProc_inv H (stepOK_any H f hpo content) maxA script s (scriptIn_true _) ⟨h0, fun _ => trivial⟩
   exact this.1
 
 /-- **C25_final_exact.** With a collision-free digest the final path holds exactly the manifest
 file's bytes. -/
-theorem C25_final_exact (hcf : CollisionFree H) (f : Facts) (content : Bytes) (maxA : Nat) (r0 : Rep)
+theorem C25_final_exact (hcf : CollisionFree H) (f : Facts) (hpo : f.promoteAfterVerdict = true) (content : Bytes) (maxA : Nat) (r0 : Rep)
     (c0 : Counters) (hist : List (List (List Outcome))) (h0 : GoodFinal H content r0) :
     ∀ b, (runHist H f content maxA (r0, c0) hist).1.final = some b → b = content :=
-  fun b hb => hcf _ _ (C25_final_correct H f content maxA r0 c0 hist h0 b hb).1
+  fun b hb => hcf _ _ (C25_final_correct H f hpo content maxA r0 c0 hist h0 b hb).1
+
+/-- **C25_final_correct_during.** Step order inside an attempt: at the moment the write goroutine
+of a `pullOnce` has finished (where `WriteReader`/`AppendReader` return and where the cleanup
+`Delete` looks) the final path is empty or holds the verified file — PROVIDED `WriteReader` renames
+only after the clean EOF that follows `Fetch`'s digest verdict (`promoteAfterVerdict`).  This is the
+obligation `C25_promote_after_verdict` discharges for the current source; without it
+`C25_early_promote_witness` shows unverified bytes at the final path. -/
+theorem C25_final_correct_during (f : Facts) (hpo : f.promoteAfterVerdict = true) (content : Bytes)
+    (resume : Bool) (r : Rep) (o : Outcome) (hr : r.final = none) :
+    ∀ b, (pullOnce H f content resume r o).mid.final = some b →
+      H b = H content ∧ b.length = content.length :=
+  pullOnce_mid_good H f hpo content resume o hr
 
 /-! ## (b) counted ⇒ complete -/
 
 /-- **C25_counts_step.** The exact step-level statement, for every combination of code facts: an
 attempt that counts the file (skipped-local or pulled) ends with a complete final file — unless the
 presence check looked at a *phantom* (final file absent, yet "present").  -/
-theorem C25_counts_step (f : Facts) (content : Bytes) (maxA : Nat) (s : PState) (peers : List Outcome)
+theorem C25_counts_step (f : Facts) (hpo : f.promoteAfterVerdict = true) (content : Bytes) (maxA : Nat) (s : PState) (peers : List Outcome)
     (hg : GoodFinal H content s.rep) (hrun : s.st = .running) (hnp : ¬ Phantom f content s.rep)
     (hc : (attemptStep H f content maxA s peers).st = .skipped ∨
           (attemptStep H f content maxA s peers).st = .pulled) :
     Complete H content (attemptStep H f content maxA s peers).rep :=
-  attemptStep_counted H (stepOK_any H f content) maxA s peers (fun _ _ => trivial)
+  attemptStep_counted H (stepOK_any H f hpo content) maxA s peers (fun _ _ => trivial)
     ⟨hg, fun _ => trivial⟩ hrun hnp hc
 
 /-- **C25_counters_status.** The two "the file is here" counters of the puller (`skipped_local`,
@@ -150,7 +162,7 @@ theorem C25_counters_status (f : Facts) (content : Bytes) (maxA : Nat) (s : PSta
 without the `.part` fallback) or a `Delete` that removes `.part`, then after ANY fault history, any
 `processEntry` call that ends counted (skipped-local / pulled) leaves the file complete at its
 final path. -/
-theorem C25_counts (f : Facts) (hrep : f.repaired = true) (content : Bytes) (maxA : Nat)
+theorem C25_counts (f : Facts) (hpo : f.promoteAfterVerdict = true) (hrep : f.repaired = true) (content : Bytes) (maxA : Nat)
     (r0 : Rep) (c0 : Counters) (hist : List (List (List Outcome))) (script : List (List Outcome))
     (h0 : GoodFinal H content r0) (hs : StartOK f content r0) :
     let rc := runHist H f content maxA (r0, c0) hist
@@ -158,15 +170,15 @@ theorem C25_counts (f : Facts) (hrep : f.repaired = true) (content : Bytes) (max
     (s.st = .skipped ∨ s.st = .pulled) → Complete H content s.rep := by
   intro rc s hc
   by_cases hps : f.presenceSound = true
-  · have hi := runHist_inv H (stepOK_any H f content) maxA hist (r0, c0)
+  · have hi := runHist_inv H (stepOK_any H f hpo content) maxA hist (r0, c0)
       (fun p _ => scriptIn_true p) ⟨h0, fun _ => trivial⟩
-    exact runProc_counted H (stepOK_any H f content) maxA (fun r _ => noPhantom_sound hps content r)
+    exact runProc_counted H (stepOK_any H f hpo content) maxA (fun r _ => noPhantom_sound hps content r)
       script (PState.start rc.1 rc.2) (scriptIn_true _) hi rfl hc
   · have hdel : f.deleteRemovesPart = true := by
       unfold Facts.repaired at hrep; simp [hps] at hrep; exact hrep
     rcases hs with h | ⟨hne, hq⟩
     · exact absurd h hps
-    · have hst := stepOK_delete H f content hdel hne
+    · have hst := stepOK_delete H f hpo content hdel hne
       have hi := runHist_inv H hst maxA hist (r0, c0) (fun p _ => scriptIn_true p) ⟨h0, hq⟩
       exact runProc_counted H hst maxA (fun r hr => noPhantom_short hr.2)
         script (PState.start rc.1 rc.2) (scriptIn_true _) hi rfl hc
@@ -177,7 +189,7 @@ file is non-empty and a staging file present at the start is a proper prefix of 
 counted call leaves the file complete.
 Full statement (= `C25_counts` without the side condition on `f`) is refuted by
 `C25_counts_witness`. -/
-theorem C25_counts_partial (f : Facts) (content : Bytes) (maxA : Nat)
+theorem C25_counts_partial (f : Facts) (hpo : f.promoteAfterVerdict = true) (content : Bytes) (maxA : Nat)
     (r0 : Rep) (c0 : Counters) (hist : List (List (List Outcome))) (script : List (List Outcome))
     (h0 : GoodFinal H content r0) (hne : content ≠ []) (hq : r0.final = none → PartPrefix content r0)
     (hclean : histClean hist = true) (hclean' : scriptClean script = true) :
@@ -185,7 +197,7 @@ theorem C25_counts_partial (f : Facts) (content : Bytes) (maxA : Nat)
     let s := runProc H f content maxA (PState.start rc.1 rc.2) script
     (s.st = .skipped ∨ s.st = .pulled) → Complete H content s.rep := by
   intro rc s hc
-  have hst := stepOK_prefix H f content hne
+  have hst := stepOK_prefix H f hpo content hne
   have hh : ∀ p ∈ hist, ScriptIn NotCorrupt p := by
     intro p hp
     unfold histClean at hclean
@@ -198,14 +210,14 @@ theorem C25_counts_partial (f : Facts) (content : Bytes) (maxA : Nat)
 /-! ## (c) convergence once the faults stop -/
 
 /-- a fresh `processEntry` call whose first candidate peer is healthy, from a non-phantom state -/
-theorem fresh_ok_call (f : Facts) (content : Bytes) (maxA : Nat) (r : Rep) (c : Counters)
+theorem fresh_ok_call (f : Facts) (hpo : f.promoteAfterVerdict = true) (content : Bytes) (maxA : Nat) (r : Rep) (c : Counters)
     (rest : List Outcome) (more : List (List Outcome))
     (hg : GoodFinal H content r) (hnp : ¬ Phantom f content r) :
     let s := runProc H f content maxA (PState.start r c) ((.ok :: rest) :: more)
     (s.st = .skipped ∨ s.st = .pulled) ∧ Complete H content s.rep ∧
     (CollisionFree H → s.rep.final = some content) := by
   intro s
-  have h := attemptStep_fresh_ok H maxA r c rest hg hnp
+  have h := attemptStep_fresh_ok H hpo maxA r c rest hg hnp
   simp only at h
   have hs : s = attemptStep H f content maxA (PState.start r c) (.ok :: rest) := by
     show runProc H f content maxA (PState.start r c) ((.ok :: rest) :: more) = _
@@ -225,7 +237,7 @@ theorem fresh_ok_call (f : Facts) (content : Bytes) (maxA : Nat) (r : Rep) (c : 
 call for the entry (FSM callback / catch-up re-enqueue) in which the first candidate peer is healthy
 ends counted, with the file complete at its final path — and, for a collision-free digest, with
 exactly the manifest file's bytes. -/
-theorem C25_converges (f : Facts) (hrep : f.repaired = true) (content : Bytes) (maxA : Nat)
+theorem C25_converges (f : Facts) (hpo : f.promoteAfterVerdict = true) (hrep : f.repaired = true) (content : Bytes) (maxA : Nat)
     (r0 : Rep) (c0 : Counters) (hist : List (List (List Outcome)))
     (rest : List Outcome) (more : List (List Outcome))
     (h0 : GoodFinal H content r0) (hs : StartOK f content r0) :
@@ -235,20 +247,20 @@ theorem C25_converges (f : Facts) (hrep : f.repaired = true) (content : Bytes) (
     (CollisionFree H → s.rep.final = some content) := by
   intro rc
   by_cases hps : f.presenceSound = true
-  · have hi := runHist_inv H (stepOK_any H f content) maxA hist (r0, c0)
+  · have hi := runHist_inv H (stepOK_any H f hpo content) maxA hist (r0, c0)
       (fun p _ => scriptIn_true p) ⟨h0, fun _ => trivial⟩
-    exact fresh_ok_call H f content maxA rc.1 rc.2 rest more hi.1 (noPhantom_sound hps content _)
+    exact fresh_ok_call H f hpo content maxA rc.1 rc.2 rest more hi.1 (noPhantom_sound hps content _)
   · have hdel : f.deleteRemovesPart = true := by
       unfold Facts.repaired at hrep; simp [hps] at hrep; exact hrep
     rcases hs with h | ⟨hne, hq⟩
     · exact absurd h hps
-    · have hi := runHist_inv H (stepOK_delete H f content hdel hne) maxA hist (r0, c0)
+    · have hi := runHist_inv H (stepOK_delete H f hpo content hdel hne) maxA hist (r0, c0)
         (fun p _ => scriptIn_true p) ⟨h0, hq⟩
-      exact fresh_ok_call H f content maxA rc.1 rc.2 rest more hi.1 (noPhantom_short hi.2)
+      exact fresh_ok_call H f hpo content maxA rc.1 rc.2 rest more hi.1 (noPhantom_short hi.2)
 
 /-- **C25_converges_partial.** Every combination of code facts, same carve-out as
 `C25_counts_partial`.  Full statement refuted by `C25_converges_witness`. -/
-theorem C25_converges_partial (f : Facts) (content : Bytes) (maxA : Nat)
+theorem C25_converges_partial (f : Facts) (hpo : f.promoteAfterVerdict = true) (content : Bytes) (maxA : Nat)
     (r0 : Rep) (c0 : Counters) (hist : List (List (List Outcome)))
     (rest : List Outcome) (more : List (List Outcome))
     (h0 : GoodFinal H content r0) (hne : content ≠ []) (hq : r0.final = none → PartPrefix content r0)
@@ -263,8 +275,8 @@ theorem C25_converges_partial (f : Facts) (content : Bytes) (maxA : Nat)
     unfold histClean at hclean
     rw [List.all_eq_true] at hclean
     exact scriptClean_spec (hclean p hp)
-  have hi := runHist_inv H (stepOK_prefix H f content hne) maxA hist (r0, c0) hh ⟨h0, hq⟩
-  exact fresh_ok_call H f content maxA rc.1 rc.2 rest more hi.1 (noPhantom_prefix hi.2)
+  have hi := runHist_inv H (stepOK_prefix H f hpo content hne) maxA hist (r0, c0) hh ⟨h0, hq⟩
+  exact fresh_ok_call H f hpo content maxA rc.1 rc.2 rest more hi.1 (noPhantom_prefix hi.2)
 end
 
 /-! ## witnesses: the round-1 source violates (b) and (c)
@@ -301,24 +313,43 @@ theorem C25_witness_outside_carveout : histClean [[[.corrupt 0], [.ok]]] = false
 
 /-! ## the current source -/
 
-/-- **C25_generated.** `Arc.Generated.C25.facts` is read off `LocalBackend.StatFile`,
-`LocalBackend.Delete` and `Puller.processEntry` on every run.  Either the source is repaired — then
-`C25_counts`/`C25_converges` apply to it — or it is exactly the round-1 combination, for which the
-witnesses above are violations. -/
-theorem C25_generated :
-    Arc.Generated.C25.facts.repaired = true ∨ Arc.Generated.C25.facts = Facts.current := by
+/-- **C25_promote_after_verdict.** Obligation on the current source (regenerated fact, read off
+`LocalBackend.WriteReader`: `io.Copy(stagingFile, reader)` on the caller's un-limited reader, error
+return before the single rename): promotion to the final path happens only after the verified-EOF
+signal.  Every theorem above takes this as hypothesis `hpo`. -/
+theorem C25_promote_after_verdict : Arc.Generated.C25.facts.promoteAfterVerdict = true := by decide
+
+/-- **C25_early_promote_witness.** Why the obligation matters: with a `WriteReader` that stops
+copying at the declared size, a full-length transfer with byte 0 altered is renamed onto the final
+path before the checksum verdict (visible at `mid`), and only then removed by the cleanup. -/
+theorem C25_early_promote_witness :
+    let f : Facts := ⟨true, false, true, false⟩
+    let po := pullOnce wId f wContent false ⟨none, none⟩ (.corrupt 0)
+    po.mid.final = some [11, 11, 12] ∧ po.err = .checksum ∧ po.rep = ⟨none, none⟩ := by
   decide
 
-theorem C25_repaired_or_current (f : Facts) : f.repaired = true ∨ f = Facts.current := by
-  obtain ⟨a, b, c⟩ := f
-  cases a <;> cases b <;> cases c <;> simp [Facts.repaired, Facts.presenceSound, Facts.current]
+/-- **C25_generated.** `Arc.Generated.C25.facts` is read off `LocalBackend.StatFile`,
+`LocalBackend.Delete`, `LocalBackend.WriteReader` and `Puller.processEntry` on every run.  Either
+the presence check / cleanup is repaired — then `C25_counts`/`C25_converges` apply — or it is
+exactly the round-1 combination, for which the witnesses above are violations. -/
+theorem C25_generated :
+    Arc.Generated.C25.facts.repaired = true ∨
+    (Arc.Generated.C25.facts.statPartFallback = true ∧ Arc.Generated.C25.facts.deleteRemovesPart = false ∧
+      Arc.Generated.C25.facts.presenceNeedsFinal = false) := by
+  decide
+
+theorem C25_repaired_or_current (f : Facts) :
+    f.repaired = true ∨
+    (f.statPartFallback = true ∧ f.deleteRemovesPart = false ∧ f.presenceNeedsFinal = false) := by
+  obtain ⟨a, b, c, d⟩ := f
+  cases a <;> cases b <;> cases c <;> simp [Facts.repaired, Facts.presenceSound]
 
 /-! ## non-vacuity -/
 
 /-- hypotheses of `C25_counts`/`C25_converges` are satisfiable by a non-trivial state and history
 (repaired facts, a stale 2-byte staging file, a truncation then a corruption then recovery) -/
 example :
-    let f : Facts := ⟨true, true, false⟩
+    let f : Facts := ⟨true, true, false, true⟩
     let r0 : Rep := ⟨none, some [10, 11]⟩
     f.repaired = true ∧ GoodFinal wId wContent r0 ∧ StartOK f wContent r0 ∧
     (runProc wId f wContent 3 (PState.start r0 {}) [[.trunc 1], [.corrupt 2], [.ok]]).st = .pulled ∧
